@@ -139,7 +139,11 @@ class MultiFilter(Filter):
 
     def __call__(self, tokens):
         # Only selects on the first token
-        t = next(tokens)
+        try:
+            t = next(tokens)
+        except StopIteration:
+            # No tokens at all (e.g. empty text): nothing to choose a filter for
+            return iter(())
         filter = self.filters.get(t.mode, self.default_filter)
         return filter(chain([t], tokens))
 
